@@ -349,6 +349,13 @@ def check_period_reference(ctx, rng, conn, entries, options, case):
     from beancount.parser import options as bopts
     from .. import period
     open_, close, clear = rng.choice(PERIOD_CHOICES)
+    if entries and rng.random() < 0.3:
+        # boundaries taken from the ledger itself: the date of its last (first) directive, the day before, the day after
+        one = datetime.timedelta(days=1)
+        last, first = entries[-1].date, entries[0].date
+        open_, close, clear = rng.choice([(None, last, False), (None, last + one, False), (None, last - one, False), (first, last, True),
+                                          (last, None, False), (first, None, False), (last, last + one, False), (first + one, last, False)])
+        ctx.count('obs.period_reference_ledger_boundaries')
     ftext, pred = rng.choice([f for f in PRINT_FILTERS if 'tags' not in f[0]])
     expr = ftext[len('FROM '):] if ftext else None
     clauses = period.clause_text(open_, close, clear, expr)
